@@ -342,10 +342,10 @@ class Backend(ABC):
             Exception
         ) as e:  # enrich all other exceptions with Sigma-specific context information
             msg = f" (while {error_state} rule {str(rule.source)})"
-            if len(e.args) > 1:
+            if e.args and isinstance(e.args[0], str):
                 e.args = (e.args[0] + msg,) + e.args[1:]
-            else:
-                e.args = (e.args[0] + msg,)
+            else:  # e.g. a KeyError with a non-string key: keep the arguments, add the context
+                e.args = e.args + (msg.strip(),)
             raise
 
     def _format_template(
@@ -2048,6 +2048,22 @@ class TextQueryBackend(Backend):
                 "Field equals numeric value expressions are not supported by the backend."
             )
 
+    def _timestamp_part_name(self, timestamp_part: TimestampPart) -> str:
+        """Name of a timestamp part from the (possibly partial) mapping of the backend."""
+        if self.timestamp_part_mapping is None or timestamp_part not in self.timestamp_part_mapping:
+            raise NotImplementedError(
+                f"Timestamp part {timestamp_part.name} is not supported by the backend."
+            )
+        return self.timestamp_part_mapping[timestamp_part]
+
+    def _compare_operator_token(self, op: CompareOperators) -> str:
+        """Token of a compare operator from the (possibly partial) mapping of the backend."""
+        if self.compare_operators is None or op not in self.compare_operators:
+            raise NotImplementedError(
+                f"Compare operator {op.name} is not supported by the backend."
+            )
+        return self.compare_operators[op]
+
     def convert_condition_field_eq_val_timestamp_part(
         self, cond: ConditionFieldEqualsValueExpression, state: ConversionState
     ) -> str | DeferredQueryExpression:
@@ -2059,7 +2075,7 @@ class TextQueryBackend(Backend):
                 return (
                     self.field_timestamp_part_expression.format(
                         field=self.escape_and_quote_field(cond.field),
-                        timestamp_part=self.timestamp_part_mapping[cond.value.timestamp_part],
+                        timestamp_part=self._timestamp_part_name(cond.value.timestamp_part),
                     )
                     + self.eq_token
                     + str(cond.value)
@@ -2206,15 +2222,15 @@ class TextQueryBackend(Backend):
             return (
                 self.field_timestamp_part_expression.format(
                     field=self.escape_and_quote_field(cond.field),
-                    timestamp_part=self.timestamp_part_mapping[cond.value.number.timestamp_part],
+                    timestamp_part=self._timestamp_part_name(cond.value.number.timestamp_part),
                 )
-                + self.compare_operators[cond_value.op]
+                + self._compare_operator_token(cond_value.op)
                 + str(cond.value.number)
             )
         else:
             return self.compare_op_expression.format(
                 field=self.escape_and_quote_field(cond.field),
-                operator=self.compare_operators[cond_value.op],
+                operator=self._compare_operator_token(cond_value.op),
                 value=cond_value.number,
             )
 
